@@ -5,6 +5,8 @@
 -/
 import Jqawk.Model.Eval
 import Jqawk.Model.Parser
+import Jqawk.Lemmas.ReadOnlyDoc
+import Jqawk.Lemmas.AssignFrame
 
 namespace Jqawk.C09
 open Jqawk
@@ -190,5 +192,404 @@ theorem compound_desugars (l r : Expr) (op : Token) (t : Tag)
     Parser.rewriteCompound l r op = .binary l (.binary l r ⟨t, op.pos, op.text⟩) ⟨.equal, op.pos, []⟩ := by
   simp only [List.mem_cons, Prod.mk.injEq, List.mem_nil_iff, or_false] at ht
   rcases ht with ⟨h1, h2⟩ | ⟨h1, h2⟩ | ⟨h1, h2⟩ | ⟨h1, h2⟩ <;> simp [Parser.rewriteCompound, h1, h2]
+
+
+/-! ### reading never changes the input document (any expression, any depth)
+
+  Clause: "Evaluating an expression that contains no assignment and no mutating method call
+  never changes the input document."  Proved over the real evaluator by one mutual induction
+  (Lemmas/ReadOnly.lean, `allRO`).  **Finding**: as stated the clause is false for the model and
+  for the Go code — the member/index step turns an *unset* base into a fresh empty array/object
+  (src/evaluator.go:582-590), so `$.u.x` changes the document when `$.u` holds an unset value
+  (`{ $.u = x; y = $.u.x }` prints `"u": {}` instead of `"u": null`; see the `example` with
+  `exFill` below).  The theorems are therefore named `…_partial`: every cell that holds a value
+  keeps it, every array keeps its cells and every object its members; an unset cell is still
+  unset or holds a fresh empty container; everything else is allocation.  For a document
+  without unset parts the rendering is unchanged (`readonly_document_unchanged`: full strength). -/
+
+
+/-- what a read-only evaluation leaves unchanged, read off a result -/
+def Unchanged {α : Type} (s : St) : Res α → Prop
+  | .ok _ s' => HeapPreserved s.heap s'.heap ∧ FramesPreserved s.frames s'.frames ∧
+      s'.root = s.root ∧ s'.ruleRoot = s.ruleRoot
+  | .err _ s' => HeapPreserved s.heap s'.heap ∧ FramesPreserved s.frames s'.frames ∧
+      s'.root = s.root ∧ s'.ruleRoot = s.ruleRoot
+  | .oof => True
+
+/-- a property of the state an evaluation ends in (nothing is claimed when fuel runs out) -/
+def After {α : Type} (P : St → Prop) : Res α → Prop
+  | .ok _ s' => P s'
+  | .err _ s' => P s'
+  | .oof => True
+
+/-- reading the invariant of Lemmas/ReadOnly.lean (`QR`, with frames) as `Unchanged` -/
+theorem Unchanged.of_QR {α : Type} {k : Bool} {s : St} {r : Res α} (h : QR k true s r) (i : Inv k s.heap) :
+    Unchanged s r ∧ After (fun s' => Inv k s'.heap) r := by
+  cases r with
+  | ok a s' => obtain ⟨r, i'⟩ := h i; exact ⟨⟨r.heap, r.frames rfl, r.root, r.ruleRoot⟩, i'⟩
+  | err e s' => obtain ⟨r, i'⟩ := h i; exact ⟨⟨r.heap, r.frames rfl, r.root, r.ruleRoot⟩, i'⟩
+  | oof => exact ⟨trivial, trivial⟩
+
+/-- Clause "evaluating an expression that contains no assignment and no mutating method call
+    never changes the input document" — for ANY program, fuel and state, and an expression
+    without assignment, `++`/`--` and without any call (`Expr.readOnly false`): whatever way the
+    evaluation ends, every cell that held a value holds the same value, every array has the same
+    cells, every object the same members (an unset cell may have become a fresh empty
+    array/object: the finding above); every variable binding and `$` denote the same cells.
+    Member and index chains, reads of missing members (`$.a.b.c`: nothing is created), literals,
+    operators, `is`, `match` expressions with such bodies are all covered. -/
+theorem readonly_expr_partial (prog : Program) (n : Nat) (e : Expr) (s : St)
+    (he : Expr.readOnly false e = true) : Unchanged s (evalExpr prog n e s) :=
+  (Unchanged.of_QR ((allRO prog false (fun h => by cases h) n).expr true e he s) (fun h => by cases h)).1
+
+/-- the same for statements (match bodies, rule bodies): blocks, `print`, `if`, `while`, `for`,
+    `return`, `break`/`continue`/`next`/`exit` over read-only expressions; `for … in` is excluded
+    (it assigns its loop variables) -/
+theorem readonly_stmt_partial (prog : Program) (n : Nat) (st : Stmt) (s : St)
+    (he : Stmt.readOnly false st = true) : Unchanged s (evalStmt prog n st s) :=
+  (Unchanged.of_QR ((allRO prog false (fun h => by cases h) n).stmt true st he s) (fun h => by cases h)).1
+
+/-- … and with method calls: `recv.name(args)` / `recv["name"](args)` with a literal name other
+    than `push`, `pop`, `popfirst` (`Expr.readOnly true`; `sort` returns a new array, `printf`
+    is not a method).  Two hypotheses exclude what no run of the interpreter produces but an
+    arbitrary state could contain: every function body of the program is itself read-only
+    (`FnsRO`: an object member holding a function value would be *called* by `o.name()`), and
+    object members are allocated cells (`ObjsInRange`, the `objs` half of `Heap.WF`; it is
+    preserved).  Calls of user functions by name and of `printf`/`json`/`num` are NOT covered:
+    the callee would be an arbitrary variable, which in an arbitrary state may hold `push`
+    bound to any array. -/
+theorem readonly_methods_partial (prog : Program) (hfn : prog.FnsRO) (n : Nat) (e : Expr) (s : St)
+    (hwf : ObjsInRange s.heap) (he : Expr.readOnly true e = true) :
+    Unchanged s (evalExpr prog n e s) ∧ After (fun s' => ObjsInRange s'.heap) (evalExpr prog n e s) := by
+  have h := Unchanged.of_QR ((allRO prog true (fun _ => hfn) n).expr true e he s) (fun _ => hwf)
+  refine ⟨h.1, ?_⟩
+  have h2 := h.2
+  cases hr : evalExpr prog n e s with
+  | ok a s' => rw [hr] at h2; exact h2 rfl
+  | err e s' => rw [hr] at h2; exact h2 rfl
+  | oof => trivial
+
+/-- statements with method calls -/
+theorem readonly_methods_stmt_partial (prog : Program) (hfn : prog.FnsRO) (n : Nat) (st : Stmt) (s : St)
+    (hwf : ObjsInRange s.heap) (he : Stmt.readOnly true st = true) :
+    Unchanged s (evalStmt prog n st s) :=
+  (Unchanged.of_QR ((allRO prog true (fun _ => hfn) n).stmt true st he s) (fun _ => hwf)).1
+
+/-- in particular: cells that hold a value keep it -/
+theorem readonly_set_cells_unchanged {α : Type} {s : St} {r : Res α} (h : Unchanged s r) (c : CellId)
+    (hc : s.heap.get c ≠ .unknown) : After (fun s' => s'.heap.get c = s.heap.get c) r := by
+  cases r with
+  | ok a s' => exact h.1.get c hc
+  | err e s' => exact h.1.get c hc
+  | oof => trivial
+
+/-- Clause "… never changes the input document", at full strength for a document without unset
+    parts (`DocSolid`: e.g. anything loaded from JSON): the cell keeps its value and that value
+    has the same JSON form (`ToGoValue`, what `-o` and `json()` produce) in the new heap; `$`
+    still denotes the same cell.  Holds for the result of any evaluation that is `Unchanged`,
+    i.e. by `readonly_expr_partial` … `readonly_methods_stmt_partial` for every read-only
+    expression or statement. -/
+theorem readonly_document_unchanged {α : Type} {s : St} {r : Res α} (h : Unchanged s r) (c : CellId)
+    (hdoc : DocSolid s.heap (s.heap.get c)) :
+    After (fun s' => s'.ruleRoot = s.ruleRoot ∧ s'.heap.get c = s.heap.get c ∧
+      toJValTop s'.heap (s'.heap.get c) = toJValTop s.heap (s.heap.get c)) r := by
+  cases r with
+  | ok a s' => exact ⟨h.2.2.2, toJValTop_cell_preserved h.1 c hdoc⟩
+  | err e s' => exact ⟨h.2.2.2, toJValTop_cell_preserved h.1 c hdoc⟩
+  | oof => trivial
+
+/-! #### examples: the hypotheses are satisfiable, and needed -/
+
+def tk (t : Tag) (s : Bytes) : Token := ⟨t, 0, s⟩
+def dollar : Expr := .ident (tk .dollar b!"$")
+def dot (e : Expr) (name : Bytes) : Expr := .binary e (.lit (tk .ident name)) (tk .dot b!".")
+def idx (e i : Expr) : Expr := .binary e i (tk .lsquare b!"[")
+def numL (s : Bytes) : Expr := .lit (tk .num s)
+def mcall (e : Expr) (name : Bytes) (args : List Expr) : Expr := .call (dot e name) args
+
+/-- `[$.a[-1] + $.s.length(), $.nope.deeper, $.s.upper()]` -/
+def exRead : Expr :=
+  .arr (tk .lsquare b!"[")
+    [ .binary (idx (dot dollar b!"a") (.unary (numL b!"1") (tk .minus b!"-") false))
+        (mcall (dot dollar b!"s") b!"length" []) (tk .plus b!"+"),
+      dot (dot dollar b!"nope") b!"deeper",
+      mcall (dot dollar b!"s") b!"upper" [] ]
+
+/-- `$ = {"a": [1, 2], "s": "hi", "u": <unset>}` -/
+def exHeap : Heap :=
+  ⟨#[.obj 0, .arr 0, .num F64.one, .num (F64.add F64.one F64.one), .str b!"hi" none, .unknown],
+   #[#[2, 3]], #[[(b!"a", 1), (b!"s", 4), (b!"u", 5)]]⟩
+
+def exSt : St :=
+  { heap := exHeap, frames := [⟨b!"<root>", []⟩], out := [], root := some 0, ruleRoot := some 0,
+    returnVal := none, faults := 0 }
+
+def sameOld (h h' : Heap) : Bool :=
+  (List.range h.cells.size).all (fun c => h'.get c == h.get c) &&
+  (List.range h.arrs.size).all (fun a => h'.arr a == h.arr a) &&
+  (List.range h.objs.size).all (fun o => h'.obj o == h.obj o)
+
+example : Expr.readOnly true exRead = true := by decide +kernel
+
+/-- `$.a[-1] + 1 < 3 && !($.nope.deeper is null)`: read-only without calls -/
+def exRead0 : Expr :=
+  .binary
+    (.binary (.binary (idx (dot dollar b!"a") (.unary (numL b!"1") (tk .minus b!"-") false)) (numL b!"1")
+      (tk .plus b!"+")) (numL b!"3") (tk .lessThan b!"<"))
+    (.unary (.binary (dot (dot dollar b!"nope") b!"deeper") (.ident (tk .null b!"null")) (tk .is b!"is"))
+      (tk .bang b!"!") false)
+    (tk .ampAmp b!"&&")
+
+example : Expr.readOnly false exRead0 = true := by decide +kernel
+
+/-- `if ($.a[0] < 3) { print $.s } else { return $.a }` -/
+def exStmt : Stmt :=
+  .if_ (.binary (idx (dot dollar b!"a") (numL b!"0")) (numL b!"3") (tk .lessThan b!"<"))
+    (.block (tk .lcurly b!"{") [.print (tk .print b!"print") [dot dollar b!"s"]])
+    (some (.ret (some (dot dollar b!"a"))))
+
+example : Stmt.readOnly false exStmt = true := by decide +kernel
+
+/-- a program with a (read-only) function: `function f(x) { return x.length() }` -/
+example : Program.FnsRO ⟨[], [⟨tk .ident b!"f", [b!"x"],
+    .ret (some (mcall (.ident (tk .ident b!"x")) b!"length" []))⟩]⟩ := by
+  intro f hf
+  simp only [List.mem_singleton] at hf
+  subst hf
+  decide +kernel
+
+example : (match evalExpr Program.empty 12 exRead exSt with
+    | .ok c s' => sameOld exHeap s'.heap && (s'.heap.get c == .arr 1) && (s'.heap.arr 1).size == 3
+    | _ => false) = true := by decide +kernel
+
+
+/-- `$.u.x` — a pure read … -/
+def exFill : Expr := dot (dot dollar b!"u") b!"x"
+
+example : Expr.readOnly false exFill = true := by decide +kernel
+
+/-- … that changes the document: the unset member `u` becomes `{}` -/
+example : (match evalExpr Program.empty 12 exFill exSt with
+    | .ok _ s' =>
+      (exHeap.get 5 == .unknown) && (s'.heap.get 5 == .obj 1) && (s'.heap.obj 1 == []) &&
+      (match toJValTop exHeap (exHeap.get 0), toJValTop s'.heap (s'.heap.get 0) with
+       | .ok a, .ok b => Json.marshalIndent a == b!"{\n  \"a\": [\n    1,\n    2\n  ],\n  \"s\": \"hi\",\n  \"u\": null\n}" &&
+                         Json.marshalIndent b == b!"{\n  \"a\": [\n    1,\n    2\n  ],\n  \"s\": \"hi\",\n  \"u\": {}\n}"
+       | _, _ => false)
+    | _ => false) = true := by decide +kernel
+
+/-- `$.a[0] = 7` -/
+def exAssign : Expr := .binary (idx (dot dollar b!"a") (numL b!"0")) (numL b!"7") (tk .equal b!"=")
+
+example : Expr.readOnly true exAssign = false ∧
+    (match evalExpr Program.empty 12 exAssign exSt with
+     | .ok _ s' => (s'.heap.get 2 != exHeap.get 2) && (exHeap.get 2 != .unknown)
+     | _ => false) = true := by decide +kernel
+
+/-- `$.a.push(3)` -/
+def exPush : Expr := mcall (dot dollar b!"a") b!"push" [numL b!"3"]
+
+example : Expr.readOnly true exPush = false ∧
+    (match evalExpr Program.empty 12 exPush exSt with
+     | .ok _ s' => (s'.heap.arr 0 != exHeap.arr 0)
+     | _ => false) = true := by decide +kernel
+
+
+/-- the sub-document `$.a = [1, 2]` of the example heap is solid -/
+theorem exHeap_a_solid : DocSolid exHeap (exHeap.get 1) := by
+  apply DocSolid.of_closed exHeap _ (fun v => v = exHeap.get 1 ∨ v = exHeap.get 2 ∨ v = exHeap.get 3)
+    (.inl rfl)
+  · intro v d w hs hd hw
+    rcases hs with rfl | rfl | rfl
+    · have : d = .a 0 := by
+        have : (exHeap.get 1).cont? = some (.a 0) := by decide +kernel
+        rw [this] at hd; cases hd; rfl
+      subst this
+      cases hw with
+      | arr a c hc =>
+        have : c = 2 ∨ c = 3 := by
+          have : (exHeap.arr 0).toList = [2, 3] := by decide +kernel
+          rw [this] at hc; simpa using hc
+        rcases this with rfl | rfl
+        · exact .inr (.inl rfl)
+        · exact .inr (.inr rfl)
+    · have : (exHeap.get 2).cont? = none := by decide +kernel
+      rw [this] at hd; cases hd
+    · have : (exHeap.get 3).cont? = none := by decide +kernel
+      rw [this] at hd; cases hd
+  · intro v hs
+    rcases hs with rfl | rfl | rfl <;> decide +kernel
+  · intro a hs
+    have : a = 0 := by
+      rcases hs with h | h | h
+      · have : exHeap.get 1 = .arr 0 := by decide +kernel
+        rw [this] at h; cases h; rfl
+      · have : exHeap.get 2 = .num F64.one := by decide +kernel
+        rw [this] at h; cases h
+      · have : exHeap.get 3 = .num (F64.add F64.one F64.one) := by decide +kernel
+        rw [this] at h; cases h
+    subst this; decide +kernel
+  · intro o hs
+    rcases hs with h | h | h
+    · have : exHeap.get 1 = .arr 0 := by decide +kernel
+      rw [this] at h; cases h
+    · have : exHeap.get 2 = .num F64.one := by decide +kernel
+      rw [this] at h; cases h
+    · have : exHeap.get 3 = .num (F64.add F64.one F64.one) := by decide +kernel
+      rw [this] at h; cases h
+
+
+
+theorem exHeap_objsInRange : ObjsInRange exHeap := by
+  intro o key c hl
+  by_cases ho : o < exHeap.objs.size
+  · have ho' : o = 0 := by
+      have : exHeap.objs.size = 1 := by decide +kernel
+      rw [this] at ho; exact Nat.lt_one_iff.mp ho
+    subst ho'
+    have : exHeap.obj 0 = [(b!"a", 1), (b!"s", 4), (b!"u", 5)] := by decide +kernel
+    rw [this] at hl
+    have hsz : exHeap.cells.size = 6 := by decide +kernel
+    rw [hsz]
+    simp only [objLookup] at hl
+    repeat' split at hl
+    all_goals first | (cases hl; done) | (cases hl; decide)
+  · rw [Heap.obj_of_not_valid exHeap o ho] at hl
+    simp [objLookup] at hl
+
+/-- all hypotheses of `readonly_methods_partial` and `readonly_document_unchanged` hold for the
+    example (`exRead` contains member and index chains, operators, a read of a missing member
+    and two method calls), so: the sub-document `$.a` renders as before -/
+example : After (fun s' => s'.ruleRoot = exSt.ruleRoot ∧ s'.heap.get 1 = exHeap.get 1 ∧
+      toJValTop s'.heap (s'.heap.get 1) = toJValTop exHeap (exHeap.get 1))
+    (evalExpr Program.empty 12 exRead exSt) :=
+  readonly_document_unchanged
+    (readonly_methods_partial Program.empty (fun f hf => by simp [Program.empty] at hf) 12 exRead exSt
+      exHeap_objsInRange (by decide +kernel)).1 1 exHeap_a_solid
+
+/-- `ObjsInRange` is needed: in an ill-formed heap where the member `foo` of `$` refers to a cell
+    that is not allocated yet (id 5), the read-only call `$.foo($.a.push is null)` finds nothing
+    callable when it evaluates the callee, but by the time of the call cell 5 has been allocated
+    — for the bound method value `$.a.push` of the argument — and the call pushes onto `$.a`.
+    (No run of the interpreter produces such a heap.) -/
+example :
+    let e := Expr.call (dot dollar b!"foo")
+      [.binary (dot (dot dollar b!"a") b!"push") (.ident (tk .null b!"null")) (tk .is b!"is")]
+    let h : Heap := ⟨#[.obj 0, .arr 0], #[#[]], #[[(b!"a", 1), (b!"foo", 5)]]⟩
+    Expr.readOnly true e = true ∧
+    (match evalExpr Program.empty 12 e { exSt with heap := h } with
+     | .ok _ s' => (h.arr 0).size == 0 && (s'.heap.arr 0).size == 1
+     | _ => false) = true := by decide +kernel
+
+/-- `FnsRO` is needed (for arbitrary states): if the member `f` of `$` holds a function value,
+    `$.f()` runs that function, here `function g() { $.k = 7 }`.  (In the interpreter a function
+    value can never be stored in a member: `copyValue` refuses it.) -/
+example :
+    let e := mcall dollar b!"f" []
+    let prog : Program := ⟨[], [⟨tk .ident b!"g", [],
+      .expr (.binary (dot dollar b!"k") (numL b!"7") (tk .equal b!"="))⟩]⟩
+    let h : Heap := ⟨#[.obj 0, .fn 0, .num F64.one], #[], #[[(b!"f", 1), (b!"k", 2)]]⟩
+    Expr.readOnly true e = true ∧
+    (match evalExpr prog 12 e { exSt with heap := h } with
+     | .ok _ s' => h.get 2 == .num F64.one && s'.heap.get 2 != .num F64.one
+     | _ => false) = true := by decide +kernel
+
+/-! ### the frame rule for an assignment to an existing location -/
+
+theorem speculative_preserved {h h' : Heap} (p : HeapPreserved h h') (c : CellId)
+    (hc : c < h.cells.size) (hns : (h.get c).speculative = false) :
+    (h'.get c).speculative = false := by
+  by_cases hu : h.get c = .unknown
+  · rcases p.unset c hc hu with e | ⟨a, e, _⟩ | ⟨o, e, _⟩ <;> rw [e] <;> rfl
+  · rw [p.get c hu]; exact hns
+
+/-- Clause "assigning … changes exactly the addressed location … and leaves every other part of
+    every value unchanged", for a target that exists: `l = r` with read-only `l`, `r` (method
+    calls allowed under the hypotheses of `readonly_methods_partial`: take `k = true`), where
+    `l` evaluates to the cell `lc` and `lc` does not stand for a missing member when the store
+    happens.  The whole assignment is: evaluate `l`, evaluate `r` (both read-only), then write
+    the copy of `r`'s value into `lc` — no other cell that held a value, no array and no object
+    changes (`HeapPreservedExcept lc`).  A value that cannot be copied (a function) is a runtime
+    error and nothing is written. -/
+theorem assign_existing_frame (prog : Program) (k : Bool) (n : Nat) (l r : Expr) (op : Token)
+    (s s1 s2 : St) (lc rc : CellId)
+    (hk : k = true → prog.FnsRO ∧ ObjsInRange s.heap)
+    (hl : Expr.readOnly k l = true) (hr : Expr.readOnly k r = true) (hop : op.tag = .equal)
+    (h1 : evalExpr prog n l s = .ok lc s1) (h2 : evalExpr prog n r s1 = .ok rc s2)
+    (hns : (s2.heap.get lc).speculative = false) :
+    HeapPreserved s.heap s2.heap ∧
+    match copyVal (s2.heap.get rc) with
+    | .ok w =>
+      evalExpr prog (n + 2) (.binary l r op) s = .ok lc { s2 with heap := s2.heap.set lc w } ∧
+      HeapPreservedExcept lc s.heap (s2.heap.set lc w) ∧
+      (lc < s2.heap.cells.size → (s2.heap.set lc w).get lc = w)
+    | .error m => evalExpr prog (n + 2) (.binary l r op) s = Jqawk.throwRt l.token.pos m s2 := by
+  have all := allRO prog k (fun e => (hk e).1) n
+  have q1 := all.expr true l hl s
+  rw [h1] at q1
+  obtain ⟨r1, i1⟩ := q1 (fun e => (hk e).2)
+  have q2 := all.expr true r hr s1
+  rw [h2] at q2
+  obtain ⟨r2, _⟩ := q2 i1
+  have hp : HeapPreserved s.heap s2.heap := r1.heap.trans r2.heap
+  refine ⟨hp, ?_⟩
+  have e := assign_existing_eq prog n l r op s s1 s2 lc rc hop h1 h2 hns
+  cases hc : copyVal (s2.heap.get rc) with
+  | ok w =>
+    rw [hc] at e
+    exact ⟨e, hp.set_except lc w, fun hlt => Heap.get_set_same' _ _ _ hlt⟩
+  | error m => rw [hc] at e; exact e
+
+/-- `x = r` for a variable `x` that is bound to an allocated cell `c` which does not stand for a
+    missing member: exactly `c` is written. -/
+theorem assign_var_frame (prog : Program) (k : Bool) (n : Nat) (t : Token) (r : Expr) (op : Token)
+    (s s2 : St) (c rc : CellId)
+    (hk : k = true → prog.FnsRO ∧ ObjsInRange s.heap)
+    (hr : Expr.readOnly k r = true) (hop : op.tag = .equal)
+    (ht : (t.tag == Tag.dollar) = false) (hb : lookupFrames s.frames t.text = some c)
+    (hc : c < s.heap.cells.size) (hns : (s.heap.get c).speculative = false)
+    (h2 : evalExpr prog (n + 1) r s = .ok rc s2) :
+    match copyVal (s2.heap.get rc) with
+    | .ok w =>
+      evalExpr prog (n + 3) (.binary (.ident t) r op) s = .ok c { s2 with heap := s2.heap.set c w } ∧
+      HeapPreservedExcept c s.heap (s2.heap.set c w) ∧ (s2.heap.set c w).get c = w
+    | .error m => evalExpr prog (n + 3) (.binary (.ident t) r op) s = Jqawk.throwRt t.pos m s2 := by
+  have h1 := evalExpr_ident_bound prog n t s c ht hb
+  have all := allRO prog k (fun e => (hk e).1) (n + 1)
+  have q2 := all.expr true r hr s
+  rw [h2] at q2
+  obtain ⟨r2, _⟩ := q2 (fun e => (hk e).2)
+  have hns2 := speculative_preserved r2.heap c hc hns
+  have h := (assign_existing_frame prog k (n + 1) (.ident t) r op s s s2 c rc hk
+    (readOnly_ident k t) hr hop h1 h2 hns2).2
+  cases hcv : copyVal (s2.heap.get rc) with
+  | ok w =>
+    rw [hcv] at h
+    exact ⟨h.1, h.2.1, h.2.2 (Nat.lt_of_lt_of_le hc r2.heap.cells)⟩
+  | error m => rw [hcv] at h; exact h
+
+/-- the final state / the value of a result (for stating concrete instances) -/
+def resState {α : Type} : Res α → St
+  | .ok _ s => s
+  | .err _ s => s
+  | .oof => default
+
+def resVal? {α : Type} : Res α → Option α
+  | .ok a _ => some a
+  | _ => none
+
+theorem eq_ok_of_resVal {α : Type} {r : Res α} {a : α} (h : resVal? r = some a) :
+    r = .ok a (resState r) := by
+  cases r <;> simp_all [resVal?, resState]
+
+/-- `$.a[0] = 7` on the example state: the hypotheses of `assign_existing_frame` hold with
+    `lc = 2` (the cell of the first element), and so does its conclusion: cell 2 is written,
+    every other old cell, the array and the object are as before -/
+example :
+    let r1 := evalExpr Program.empty 10 (idx (dot dollar b!"a") (numL b!"0")) exSt
+    let r2 := evalExpr Program.empty 10 (numL b!"7") (resState r1)
+    r1 = .ok 2 (resState r1) ∧ r2 = .ok 8 (resState r2) ∧
+    ((resState r2).heap.get 2).speculative = false := by
+  refine ⟨eq_ok_of_resVal (by decide +kernel), eq_ok_of_resVal (by decide +kernel), by decide +kernel⟩
 
 end Jqawk.C09
